@@ -46,7 +46,8 @@ def _write_node_attributes(m: nx.Graph) -> str:
         available_attrs = [
             f"{_SERIALIZER_NODE_ATTRIBUTE_MAPPING[attr]}={attrs[attr]}"
             for attr in _SERIALIZER_NODE_ATTRIBUTE_MAPPING
-            if attr in attrs
+            # 0 is the default (e.g. explicit "MASS=0" or "RAD=0" in a molfile), i.e. same as absent
+            if attrs.get(attr)
         ]
         if not available_attrs:
             continue
